@@ -534,3 +534,102 @@ B('d7_b_debug_not_found_resets_message', ['C09'], 'R09.a', (E, _CNF_SUPER, _CNF_
 B('d7_b_method_not_allowed_detail_after_super', ['C09'], 'R09.a',
   (E, "            self.detail = '%s Allowed methods: %r' % (self.detail,\n                                                      method_list)\n        super(MethodNotAllowed, self).__init__(*args, **kwargs)\n",
       "        super(MethodNotAllowed, self).__init__(*args, **kwargs)\n        if self.allowed_methods:\n            self.detail = 'Allowed methods: %r' % (method_list,)\n"))
+
+# ------------------------------------------------------------------ eighth pass: the lookup of adapt() with a default no format can be
+# (a private marker object, a constant outside the table); a body encoded in place (``if not isinstance(t, bytes): t = t.encode(..)``)
+_ENC_BODY = "        if isinstance(text, bytes):\n            return text\n        return text.encode(self.charset, 'backslashreplace')\n"
+_ENC_IN_PLACE = "        if not isinstance(text, bytes):\n            text = text.encode(self.charset, 'backslashreplace')\n        return text\n"
+_MARKER = _AFTER_DEFAULT_MIME + "_NO_FORMAT = object()\n"
+_MARKER_LOOKUP = "        fmt_name = MIME_SUPPORT_MAP.get(mimetype, _NO_FORMAT)\n        if fmt_name is _NO_FORMAT:\n            fmt_name, mimetype = 'text', 'text/plain'\n"
+_ADAPT_BODY = "        self.data = self._encode(_method())\n"
+_INIT_BODY = "        body = self._encode(self.to_text())\n"
+T('d8_t_adapt_lookup_with_marker_default', ['C09', 'C08'], (E, _AFTER_DEFAULT_MIME, _MARKER), (E, _ADAPT_LOOKUP, _MARKER_LOOKUP))
+T('d8_t_adapt_marker_told_by_equality_found_first', ['C09'], (E, _AFTER_DEFAULT_MIME, _MARKER),
+  (E, _ADAPT_LOOKUP, "        fmt_name = MIME_SUPPORT_MAP.get(mimetype, _NO_FORMAT)\n        if fmt_name != _NO_FORMAT:\n            pass\n        else:\n"
+                     "            fmt_name, mimetype = 'text', 'text/plain'\n"))
+T('d8_t_adapt_lookup_with_empty_default', ['C09'],
+  (E, _ADAPT_LOOKUP, "        fmt_name = MIME_SUPPORT_MAP.get(mimetype, '')\n        if not fmt_name:\n            fmt_name, mimetype = 'text', 'text/plain'\n"))
+T('d8_t_adapt_lookup_with_empty_default_compared', ['C09'],
+  (E, _ADAPT_LOOKUP, "        fmt_name = MIME_SUPPORT_MAP.get(mimetype, '')\n        if fmt_name == '':\n            fmt_name, mimetype = 'text', 'text/plain'\n"))
+T('d8_t_body_encoded_in_place', ['C09', 'C08'], (E, _ENC_BODY, _ENC_IN_PLACE))
+T('d8_t_body_encoded_in_place_bytes_arm_idle', ['C09'],
+  (E, _ENC_BODY, "        if isinstance(text, bytes):\n            pass\n        else:\n            text = text.encode(self.charset, 'backslashreplace')\n        return text\n"))
+T('d8_t_marker_default_and_body_encoded_in_place', ['C09'], (E, _AFTER_DEFAULT_MIME, _MARKER), (E, _ADAPT_LOOKUP, _MARKER_LOOKUP), (E, _ENC_BODY, _ENC_IN_PLACE))
+B('d8_b_marker_test_inverted', ['C09'], 'R09.b', (E, _AFTER_DEFAULT_MIME, _MARKER),
+  (E, _ADAPT_LOOKUP, _MARKER_LOOKUP.replace("fmt_name is _NO_FORMAT", "fmt_name is not _NO_FORMAT")))
+B('d8_b_marker_fallback_keeps_mimetype', ['C09'], 'R09.b', (E, _AFTER_DEFAULT_MIME, _MARKER),
+  (E, _ADAPT_LOOKUP, _MARKER_LOOKUP.replace("fmt_name, mimetype = 'text', 'text/plain'", "fmt_name = 'text'")))
+B('d8_b_marker_fallback_mismatched_pair', ['C09'], 'R09.b', (E, _AFTER_DEFAULT_MIME, _MARKER),
+  (E, _ADAPT_LOOKUP, _MARKER_LOOKUP.replace("'text', 'text/plain'", "'text', 'text/html'")))
+B('d8_b_marker_is_a_format_of_the_table', ['C09'], 'R09.b', (E, _AFTER_DEFAULT_MIME, _AFTER_DEFAULT_MIME + "_NO_FORMAT = 'text'\n"),
+  (E, _ADAPT_LOOKUP, _MARKER_LOOKUP.replace("fmt_name is _NO_FORMAT", "fmt_name == _NO_FORMAT")))
+B('d8_b_other_marker_tested', ['C09'], 'R09.b', (E, _AFTER_DEFAULT_MIME, _MARKER + "_NO_TYPE = object()\n"),
+  (E, _ADAPT_LOOKUP, _MARKER_LOOKUP.replace("fmt_name is _NO_FORMAT", "fmt_name is _NO_TYPE")))
+B('d8_b_marker_rebound_by_a_function', ['C09'], 'R09.b',
+  (E, _AFTER_DEFAULT_MIME, _MARKER + "\n\ndef _reset_marker(value):\n    global _NO_FORMAT\n    _NO_FORMAT = value\n\n"), (E, _ADAPT_LOOKUP, _MARKER_LOOKUP))
+B('d8_b_empty_default_tested_for_none', ['C09'], 'R09.b',
+  (E, _ADAPT_LOOKUP, "        fmt_name = MIME_SUPPORT_MAP.get(mimetype, '')\n        if fmt_name is None:\n            fmt_name, mimetype = 'text', 'text/plain'\n"))
+B('d8_b_format_default_tested_by_truth', ['C09'], 'R09.b',
+  (E, _ADAPT_LOOKUP, "        fmt_name = MIME_SUPPORT_MAP.get(mimetype, 'text')\n        if not fmt_name:\n            fmt_name, mimetype = 'text', 'text/plain'\n"))
+B('d8_b_in_place_adapt_body_is_plain_text', ['C09'], 'R09.b', (E, _ENC_BODY, _ENC_IN_PLACE), (E, _ADAPT_BODY, "        self.data = self._encode(self.to_text())\n"))
+B('d8_b_in_place_default_body_is_markup', ['C09'], 'R09.a', (E, _ENC_BODY, _ENC_IN_PLACE), (E, _INIT_BODY, "        body = self._encode(self.to_html())\n"))
+B('d8_b_in_place_encodes_another_text', ['C09'], 'R09.b',
+  (E, _ENC_BODY, "        if not isinstance(text, bytes):\n            text = self.message.encode(self.charset, 'backslashreplace')\n        return text\n"))
+B('d8_b_in_place_body_rebound_after_encoding', ['C09'], 'R09.b',
+  (E, _ENC_BODY, _ENC_IN_PLACE), (E, _ADAPT_BODY, "        body = self._encode(_method())\n        body = self._encode(self.to_text())\n        self.data = body\n"))
+
+# ------------------------------------------------------------------ ninth pass: the way an error takes to a negotiating renderer --
+# execute_error() hands back only what the route's render_error returned (anything else is an exception), and the application answers
+# any exception from it with default_render_error()
+_EXEC_GUARD = "        if not callable(self.render_error):\n            raise TypeError('render_error not set or not callable')\n"
+_EXEC_RET = "        return inject(self.render_error, injectables)\n"
+_DISPATCH_ERR = ("            try:\n                ret = ret.source_route.execute_error(**error_params)\n            except Exception:\n"
+                 "                ret = default_render_error(**error_params)\n")
+_DISPATCH_ERR_TAIL = "        if isinstance(ret, HTTPException):\n            error_params = dict(params, _error=ret)\n" + _DISPATCH_ERR + "        return ret\n"
+_DISPATCH_EARLY = ("        if not isinstance(ret, HTTPException):\n            return ret\n        error_params = dict(params, _error=ret)\n"
+                   "        try:\n            return ret.source_route.execute_error(**error_params)\n        except Exception:\n"
+                   "            return default_render_error(**error_params)\n")
+T('d9_t_exec_error_renderer_named_first', ['C09', 'C08'],
+  (R, _EXEC_GUARD, "        render_error = self.render_error\n        if not callable(render_error):\n            raise TypeError('render_error not set or not callable')\n"),
+  (R, _EXEC_RET, "        return inject(render_error, injectables)\n"))
+T('d9_t_exec_error_result_named', ['C09'], (R, _EXEC_RET, "        response = inject(self.render_error, injectables)\n        return response\n"))
+T('d9_t_exec_error_guard_after_injectables', ['C09'], (R, _EXEC_GUARD, ""),
+  (R, _EXEC_RET, "        if callable(self.render_error):\n            return inject(self.render_error, injectables)\n        raise TypeError('render_error not set or not callable')\n"))
+T('d9_t_dispatch_error_rendered_by_early_returns', ['C09', 'C08'], (A, _DISPATCH_ERR_TAIL, _DISPATCH_EARLY))
+T('d9_t_dispatch_fallback_handler_names_exception', ['C09'], (A, _DISPATCH_ERR, _DISPATCH_ERR.replace("except Exception:", "except Exception as render_exc:")))
+T('d9_t_dispatch_error_rendered_in_helper', ['C09'],
+  (A, _DISPATCH_ERR_TAIL, "        if isinstance(ret, HTTPException):\n            ret = self._render_error_response(ret, params)\n        return ret\n\n"
+                          "    @staticmethod\n    def _render_error_response(http_error, params):\n        error_params = dict(params, _error=http_error)\n"
+                          "        try:\n            return http_error.source_route.execute_error(**error_params)\n        except Exception:\n"
+                          "            return default_render_error(**error_params)\n"))
+T('d9_t_exec_error_result_named_in_two_arms', ['C09'],
+  (R, _EXEC_RET, "        if kwargs:\n            response = inject(self.render_error, dict(injectables))\n        else:\n"
+                 "            response = inject(self.render_error, injectables)\n        return response\n"))
+B('d9_b_exec_error_one_arm_hands_back_error', ['C09'], 'R09.b',
+  (R, _EXEC_RET, "        if kwargs:\n            response = inject(self.render_error, dict(injectables))\n        else:\n"
+                 "            response = _error\n        return response\n"))
+B('d9_b_exec_error_hands_back_error_without_renderer', ['C09'], 'R09.b', (R, _EXEC_GUARD, "        if not callable(self.render_error):\n            return _error\n"))
+B('d9_b_exec_error_hands_back_nonbreaking_errors', ['C09'], 'R09.b',
+  (R, _EXEC_GUARD, _EXEC_GUARD + "        if not getattr(_error, 'is_breaking', True):\n            return _error\n"))
+B('d9_b_exec_error_returns_nothing_without_renderer', ['C09'], 'R09.b', (R, _EXEC_GUARD, "        if not callable(self.render_error):\n            return\n"))
+B('d9_b_exec_error_falls_off_without_renderer', ['C09'], 'R09.b', (R, _EXEC_GUARD, ""),
+  (R, _EXEC_RET, "        if callable(self.render_error):\n            return inject(self.render_error, injectables)\n"))
+B('d9_b_exec_error_swallows_renderer_failure', ['C09'], 'R09.b',
+  (R, _EXEC_RET, "        try:\n            return inject(self.render_error, injectables)\n        except Exception:\n            return _error\n"))
+B('d9_b_exec_error_named_result_replaced', ['C09'], 'R09.b',
+  (R, _EXEC_RET, "        response = inject(self.render_error, injectables)\n        if response is None:\n            response = _error\n        return response\n"))
+B('d9_b_dispatch_fallback_for_type_errors_only', ['C09'], 'R09.b', (A, _DISPATCH_ERR, _DISPATCH_ERR.replace("except Exception:", "except TypeError:")))
+B('d9_b_dispatch_fallback_only_when_debug', ['C09'], 'R09.b',
+  (A, _DISPATCH_ERR, _DISPATCH_ERR.replace("                ret = default_render_error(**error_params)\n",
+                                           "                if getattr(self, 'debug', False):\n                    ret = default_render_error(**error_params)\n")))
+B('d9_b_dispatch_no_fallback', ['C09'], 'R09.b', (A, _DISPATCH_ERR, "            ret = ret.source_route.execute_error(**error_params)\n"))
+B('d9_b_dispatch_fallback_hands_error_on', ['C09'], 'R09.b',
+  (A, _DISPATCH_ERR, _DISPATCH_ERR.replace("                ret = default_render_error(**error_params)\n", "                ret = error_params['_error']\n")))
+B('d9_b_dispatch_fallback_result_dropped', ['C09'], 'R09.b',
+  (A, _DISPATCH_ERR, _DISPATCH_ERR.replace("                ret = default_render_error(**error_params)\n", "                default_render_error(**error_params)\n")))
+B('d9_b_dispatch_rendered_response_replaced', ['C09'], 'R09.b', (A, _DISPATCH_ERR, _DISPATCH_ERR + "            ret = error_params['_error']\n"))
+B('d9_b_dispatch_early_returns_narrow_handler', ['C09'], 'R09.b', (A, _DISPATCH_ERR_TAIL, _DISPATCH_EARLY.replace("except Exception:", "except (TypeError, ValueError):")))
+B('d9_b_dispatch_early_returns_fallback_only_when_debug', ['C09'], 'R09.b',
+  (A, _DISPATCH_ERR_TAIL, _DISPATCH_EARLY.replace("            return default_render_error(**error_params)\n",
+                                                  "            if getattr(self, 'debug', False):\n                return default_render_error(**error_params)\n"
+                                                  "            return ret\n")))
